@@ -332,62 +332,7 @@ func kindRnm3(c *hlib.Ctx) {
 
 // ---------------------------------------------------------------- rn3
 
-func kindRn3(c *hlib.Ctx) {
-	var m *model3d.Mesh
-	var label string
-	switch c.Rng.Intn(5) {
-	case 0, 1:
-		m, label = nested3(c, true)
-	case 2:
-		m, label = closed3(c)
-	default:
-		m, label = closed3simple(c)
-	}
-	if m.NumTriangles() > 260 {
-		c.Stat("rn3:skipped-large", 1)
-		m, label = closed3simple(c)
-	}
-	s := soupOfMesh(c, m)
-	// re-orient random faces / whole components
-	switch c.Rng.Intn(4) {
-	case 0:
-	case 1:
-		for _, g := range s.components() {
-			if c.Rng.Intn(2) == 0 {
-				for _, j := range g {
-					s.faces[j] = flipFace(s.faces[j])
-				}
-			}
-		}
-	default:
-		k := 1 + c.Rng.Intn(1+len(s.faces)/2)
-		for i := 0; i < k; i++ {
-			j := c.Rng.Intn(len(s.faces))
-			s.faces[j] = flipFace(s.faces[j])
-		}
-	}
-	eps := []float64{1.0 / 1024, 1.0 / 256, 1e-3}[c.Rng.Intn(3)]
-	b := s.build()
-	var out string
-	st := watchdog(func() {
-		res, n := b.m.RepairNormals(eps)
-		fl, ok := flippedSet(s, res)
-		if !ok {
-			out = "output-is-not-a-reorientation-of-the-input"
-			return
-		}
-		clean := !res.NeedsRepair() && len(res.InconsistentEdges()) == 0
-		out = fmt.Sprintf("flip=%s n=%d clean=%s", intsStr(fl), n, b01(clean))
-		if n > 0 {
-			c.Stat("rn3:flipped-something", 1)
-		}
-	})
-	if st != "ok" {
-		out = st
-	}
-	c.Stat("rn3-src:"+label, 1)
-	emit(c, "rn3", []string{s.iSection(), "E " + hlib.RatStr(eps), s.cSection()}, out)
-}
+// kindRn3: see probe.go.
 
 // ---------------------------------------------------------------- rep3
 
